@@ -25,6 +25,7 @@ struct rr_node {
 	const char *lit;	/* AT_LIT: the literal bytes (one character) */
 	int brk_neg;		/* AT_BRK */
 	const char *brk_set;	/* AT_BRK: explicit ASCII members, e.g. "ab"; NULL for class alpha */
+	unsigned brk_cp;	/* AT_BRK: one further member outside ASCII (0: none) */
 	int brk_alpha;		/* AT_BRK: [[:alpha:]] */
 };
 
@@ -119,6 +120,13 @@ static int rr_atom(const struct rr_node *nd, const struct rr_subj *sj, int p)
 					if ((sj->icase ? rr_fold((unsigned char) *m) : (unsigned char) *m) == cc)
 						in = 1;
 			}
+		}
+		if (nd->brk_cp && c >= 0xc0) {
+			unsigned cp = c < 0xe0 ? ((c & 0x1fu) << 6) | (s[o + 1] & 0x3f) :
+				c < 0xf0 ? ((c & 0x0fu) << 12) | ((s[o + 1] & 0x3fu) << 6) | (s[o + 2] & 0x3f) :
+				((c & 0x07u) << 18) | ((s[o + 1] & 0x3fu) << 12) | ((s[o + 2] & 0x3fu) << 6) | (s[o + 3] & 0x3f);
+			if (cp == nd->brk_cp)
+				in = 1;
 		}
 		return in != nd->brk_neg ? p + 1 : -1;
 	}
